@@ -170,6 +170,27 @@ AXIOM_WHITELIST = set()   # no axiom is expected anywhere (DESIGN.md section 8)
 def check_proofs(prop):
     """Recompile coq/Prop_<prop>.v.  Returns dict(obligations, discharged, theorems,
     axioms, ok, error, checker_cmd)."""
+    import glob as _glob
+    extra = sorted(f for f in _glob.glob(os.path.join(ROOT, 'coq', 'Prop_%s_*.v' % prop)))
+    if extra and not os.environ.get('_VERIF_SUB'):
+        # a property whose statements are spread over several files: Prop_Cxx.v + Prop_Cxx_*.v
+        os.environ['_VERIF_SUB'] = '1'
+        try:
+            parts = [check_proofs(prop)] + [check_proofs(os.path.basename(f)[5:-2]) for f in extra]
+        finally:
+            del os.environ['_VERIF_SUB']
+        tot = dict(parts[0])
+        for q in parts[1:]:
+            tot['obligations'] += q['obligations']
+            tot['discharged'] += q['discharged']
+            tot['theorems'] = tot['theorems'] + q['theorems']
+            tot['axioms'] = dict(tot['axioms'], **q['axioms'])
+            tot['ok'] = tot['ok'] and q['ok']
+            tot['error'] = tot['error'] or q['error']
+            tot['checker_cmd'] += ' ; ' + q['checker_cmd']
+            if not q['ok'] and not tot.get('failed_theorem'):
+                tot['failed_theorem'] = q.get('failed_theorem')
+        return tot
     src = os.path.join(ROOT, 'coq', 'Prop_%s.v' % prop)
     res = dict(obligations=0, discharged=0, theorems=[], axioms={}, ok=False, error=None,
                checker_cmd='coqc -R coq Cnfgen coq/Prop_%s.v  (after make in coq/)' % prop)
